@@ -49,6 +49,8 @@ var c16FieldExceptions = map[string]string{
 }
 
 func runC16(w *World, r *Report) {
+	defer c16ArgumentNames(w, r)
+
 	r.Rule("R-C16-1", "every ast node type constructed by the parser has a printer: a type-switch case or a typed parameter in the format*.go files", 60)
 	r.Rule("R-C16-2", "every field of an ast node that the parser writes (composite literal key or assignment) is read in the format*.go files", 150)
 	r.Rule("R-C16-3", "Children() completeness (same rule as R-C15-1)", 60)
@@ -373,4 +375,83 @@ func isFieldLoadOf(v ssa.Value, base ssa.Value, field string) bool {
 	}
 
 	return false
+}
+
+// c16ArgumentNames: R-C16-5.  The printer passes node fields to helper functions whose parameters
+// are named after those fields (referentialActions(onDelete, onUpdate, …)).  Where two parameters
+// have the same type the compiler cannot tell a swapped pair; this rule can: when an argument is
+// the field x.F and the callee has a parameter named f (case-insensitively), the argument must be
+// bound to that parameter.
+func c16ArgumentNames(w *World, r *Report) {
+	r.Rule("R-C16-5", "argument / parameter name agreement in package sqlparse: a node field passed as an argument is bound to the parameter that carries the field's name, when the callee has one", 5)
+
+	sp := w.pkg("internal/sqlparse")
+	if sp == nil || w.prog == nil {
+		return
+	}
+
+	n := 0
+
+	for _, fn := range w.srcFuncs(sp) {
+		count := map[string]int{}
+
+		allInstrs(fn, func(in ssa.Instruction) {
+			c, ok := in.(*ssa.Call)
+			if !ok {
+				return
+			}
+
+			cf := calleeFunction(c.Common())
+			if cf == nil || cf.Pkg == nil || cf.Pkg.Pkg != sp.Types || len(cf.Params) != len(c.Call.Args) {
+				return
+			}
+
+			pnames := map[string]int{}
+			for i, p := range cf.Params {
+				pnames[strings.ToLower(p.Name())] = i
+			}
+
+			for i, a := range c.Call.Args {
+				// the argument is a load (or copy) of a struct field
+				var fname string
+
+				switch x := a.(type) {
+				case *ssa.UnOp:
+					if fa, ok := x.X.(*ssa.FieldAddr); ok {
+						fname = fieldName(fa.X.Type(), fa.Field)
+					}
+				case *ssa.Field:
+					fname = fieldName(x.X.Type(), x.Field)
+				}
+
+				if fname == "" {
+					continue
+				}
+
+				j, has := pnames[strings.ToLower(fname)]
+				if !has {
+					continue
+				}
+
+				n++
+
+				key := fnKey(fn) + "|" + fname + " passed to " + fnKey(cf)
+				count[key]++
+
+				if k := count[key]; k > 1 {
+					key += "#" + sprintInt(k)
+				}
+
+				if j == i {
+					r.Discharge("R-C16-5", key, w.pos(in.Pos()), "")
+				} else {
+					r.Violate("R-C16-5", key, w.pos(in.Pos()), "the field "+fname+" is passed in the position of parameter "+cf.Params[i].Name()+", although the callee has a parameter named "+cf.Params[j].Name()+": the printed statement carries this value under the other keyword")
+				}
+			}
+		})
+	}
+
+	if n == 0 {
+		r.Anchor("R-C16-5", "calls in package sqlparse that pass node fields to like-named parameters")
+	}
 }
